@@ -241,12 +241,20 @@ func (s *sys) Clone() bfs.System {
 	return &n
 }
 
+// badNames are malformed chain names: too short, too long, empty, with a path separator, with characters outside the
+// allowed set, and names that are well formed only once surrounding blanks are trimmed (the tracked client's own name
+// among them: the padded name is a different store key, so the used-name check does not catch it).
+var badNames = []string{"x", "", strings.Repeat("n", 65), "cp/chain", "cp chain", " " + Name, Name + " ", Name + "\n", "\tnew-chain", "new-chain "}
+
 func (s *sys) Ops() []string {
 	var out []string
 	for _, t := range types {
 		out = append(out, "create "+t, "create-wrong-consensus "+t, "upgrade "+t, "toggle "+t)
 	}
-	out = append(out, "create-bad-name tm", "upgrade-bsc-off-epoch", "update", "update-outsider", "update-backfill")
+	for i := range badNames {
+		out = append(out, fmt.Sprintf("create-bad-name tm %d", i))
+	}
+	out = append(out, "upgrade-bsc-off-epoch", "update", "update-outsider", "update-backfill")
 	if s.waits < 2 {
 		out = append(out, "wait") // the local clock passes the delay period (an install at an already tracked height must restart the delay)
 	}
@@ -316,7 +324,9 @@ func (s *sys) apply(op string) (obs, class string, viols []bfs.Viol) {
 				shouldFail = "the chain name is already in use"
 			}
 		case "create-bad-name":
-			name = "x"
+			var i int
+			fmt.Sscan(f[2], &i)
+			name = badNames[i]
 			shouldFail = "the chain name is malformed"
 		case "upgrade":
 			if s.typ == "" {
